@@ -52,43 +52,64 @@ AllIds(out) == UNION {SeqSet(out[k].ids) : k \in DOMAIN out}
 KnownSlot(x) == x \in TimeIds \/ x \in EvIds
 SetOf(u, x) == IF x \in TimeIds THEN u.idset[x] ELSE u.trset[x - NI]
 
-(* ground truth from the chain *)
-IdRegBlocks(blk, h, x) == {b \in AncSelf(blk, h) : TokI(x) \in blk[b].evs}
-RegisteredOn(blk, h, x) ==
-    IF x \in TimeIds THEN IdRegBlocks(blk, h, x) # {}
-    ELSE RegBlock(blk, h, 1, blk[h].num, TKey(x - NI)) # 0
-TsOn(blk, h, x) == LET b == CHOOSE c \in IdRegBlocks(blk, h, x) : TRUE IN blk[b].ts[x]
+(* ground truth: the block tree.  "The canonical chain as synced by that keyper" is the ancestor
+   line of the block its sync position names after the step (tr for the registry syncer: time
+   identities; te for the multi event syncer: event identities).  On a linear chain both are the
+   header h it was given; they differ from h only right after a same-height head replacement,
+   which the syncers notice one block later. *)
+Tip(blk, h, sy) == IF sy.has /\ sy.hash >= 1 /\ sy.hash <= Len(blk) THEN sy.hash ELSE h
+IdRegBlocks(blk, tr, x) == {b \in AncSelf(blk, tr) : TokI(x) \in blk[b].evs}
+RegisteredOn(blk, tr, te, x) ==
+    IF x \in TimeIds THEN IdRegBlocks(blk, tr, x) # {}
+    ELSE RegBlock(blk, te, 1, blk[te].num, TKey(x - NI)) # 0
+TsOn(blk, tr, x) == LET b == CHOOSE c \in IdRegBlocks(blk, tr, x) : TRUE IN blk[b].ts[x]
+(* the keyper's tables moved to another branch in this step (rollback): decrypted flags of deleted
+   rows are gone *)
+Switched(blk, pre, post) ==
+    \/ pre.r.synced.has /\ pre.r.synced.hash >= 1 /\ ~(pre.r.synced.hash \in AncSelf(blk, Tip(blk, 1, post.r.synced)))
+    \/ pre.m.synced.has /\ pre.m.synced.hash >= 1 /\ ~(pre.m.synced.hash \in AncSelf(blk, Tip(blk, 1, post.m.synced)))
 
-E1_Registered(u, blk, h, pre, out) == \A x \in AllIds(out) : KnownSlot(x) /\ RegisteredOn(blk, h, x)
-E1_TimeStrict(u, blk, h, pre, out) ==
-    \A x \in AllIds(out) : (x \in TimeIds /\ RegisteredOn(blk, h, x)) => TsOn(blk, h, x) < TimeOf(blk[h].num)
-E1_Activation(u, blk, h, pre, out) ==
-    \A x \in AllIds(out) : (KnownSlot(x) /\ RegisteredOn(blk, h, x)) => blk[h].num >= u.act[SetOf(u, x)]
-E1_EventInTime(u, blk, h, pre, out) ==
-    \A x \in AllIds(out) : (x \in EvIds /\ RegisteredOn(blk, h, x)) => FiringLogs(blk, h, 1, blk[h].num, TKey(x - NI)) # {}
-E1_Member(u, blk, h, pre, out) == \A x \in AllIds(out) : KnownSlot(x) => u.kind[SetOf(u, x)] # "foreign"
-E1_DkgOk(u, blk, h, pre, out) == \A x \in AllIds(out) : KnownSlot(x) => u.kind[SetOf(u, x)] \in {"ok", "foreign"}
-E1_NotDecrypted(u, blk, h, pre, out) == \A x \in AllIds(out) : x \notin DecSlots(u, pre)
-E1_Sorted(u, blk, h, pre, out) ==
+(* c = [u, blk, h, pre, post, tr, te] *)
+Ctx(u, blk, h, pre, post) == [u |-> u, blk |-> blk, h |-> h, pre |-> pre, post |-> post,
+                              tr |-> Tip(blk, h, post.r.synced), te |-> Tip(blk, h, post.m.synced)]
+Reg(c, x) == KnownSlot(x) /\ RegisteredOn(c.blk, c.tr, c.te, x)
+
+E1_Registered(c, out) == \A x \in AllIds(out) : Reg(c, x)
+E1_TimeStrict(c, out) ==
+    \A x \in AllIds(out) : (x \in TimeIds /\ Reg(c, x)) => TsOn(c.blk, c.tr, x) < TimeOf(c.blk[c.h].num)
+E1_Activation(c, out) ==
+    \A x \in AllIds(out) : Reg(c, x) => c.blk[c.h].num >= c.u.act[SetOf(c.u, x)]
+E1_EventInTime(c, out) ==
+    \A x \in AllIds(out) : (x \in EvIds /\ Reg(c, x)) => FiringLogs(c.blk, c.te, 1, c.blk[c.te].num, TKey(x - NI)) # {}
+E1_Member(c, out) == \A x \in AllIds(out) : KnownSlot(x) => c.u.kind[SetOf(c.u, x)] # "foreign"
+E1_DkgOk(c, out) == \A x \in AllIds(out) : KnownSlot(x) => c.u.kind[SetOf(c.u, x)] \in {"ok", "foreign"}
+E1_NotDecrypted(c, out) ==
+    \A x \in AllIds(out) : x \notin DecSlots(c.u, c.post) /\ (Switched(c.blk, c.pre, c.post) \/ x \notin DecSlots(c.u, c.pre))
+E1_Sorted(c, out) ==
     \A k \in DOMAIN out : \A a, b \in DOMAIN out[k].ids : a < b => out[k].ids[a] < out[k].ids[b]
-E1_Share(u, blk, h, pre, out) ==
+E1_Share(c, out) ==
     \A k \in DOMAIN out : out[k].msg.sent =>
         /\ out[k].msg.ids = out[k].ids
         /\ out[k].msg.set \in SetIdx
-        /\ \A x \in SeqSet(out[k].ids) : KnownSlot(x) => SetOf(u, x) = out[k].msg.set
-        /\ u.kind[out[k].msg.set] = "ok"
+        /\ \A x \in SeqSet(out[k].ids) : KnownSlot(x) => SetOf(c.u, x) = out[k].msg.set
+        /\ c.u.kind[out[k].msg.set] = "ok"
         /\ out[k].msg.key = EonNo(out[k].msg.set)
+(* information: a decrypted flag was lost by a rollback and the identity is triggered again (the key
+   share handler then answers "shares exist already") *)
+X_ReTrigger(c, out) == \A x \in AllIds(out) : x \notin DecSlots(c.u, c.pre)
 
-E1Failed(u, blk, h, pre, out) ==
-    (IF E1_Registered(u, blk, h, pre, out) THEN {} ELSE {"E1_Registered"}) \cup
-    (IF E1_TimeStrict(u, blk, h, pre, out) THEN {} ELSE {"E1_TimeStrict"}) \cup
-    (IF E1_Activation(u, blk, h, pre, out) THEN {} ELSE {"E1_Activation"}) \cup
-    (IF E1_EventInTime(u, blk, h, pre, out) THEN {} ELSE {"E1_EventInTime"}) \cup
-    (IF E1_Member(u, blk, h, pre, out) THEN {} ELSE {"E1_Member"}) \cup
-    (IF E1_DkgOk(u, blk, h, pre, out) THEN {} ELSE {"E1_DkgOk"}) \cup
-    (IF E1_NotDecrypted(u, blk, h, pre, out) THEN {} ELSE {"E1_NotDecrypted"}) \cup
-    (IF E1_Sorted(u, blk, h, pre, out) THEN {} ELSE {"E1_Sorted"}) \cup
-    (IF E1_Share(u, blk, h, pre, out) THEN {} ELSE {"E1_Share"})
+E1Failed(u, blk, h, pre, post, out) ==
+    LET c == Ctx(u, blk, h, pre, post) IN
+    (IF E1_Registered(c, out) THEN {} ELSE {"E1_Registered"}) \cup
+    (IF E1_TimeStrict(c, out) THEN {} ELSE {"E1_TimeStrict"}) \cup
+    (IF E1_Activation(c, out) THEN {} ELSE {"E1_Activation"}) \cup
+    (IF E1_EventInTime(c, out) THEN {} ELSE {"E1_EventInTime"}) \cup
+    (IF E1_Member(c, out) THEN {} ELSE {"E1_Member"}) \cup
+    (IF E1_DkgOk(c, out) THEN {} ELSE {"E1_DkgOk"}) \cup
+    (IF E1_NotDecrypted(c, out) THEN {} ELSE {"E1_NotDecrypted"}) \cup
+    (IF E1_Sorted(c, out) THEN {} ELSE {"E1_Sorted"}) \cup
+    (IF E1_Share(c, out) THEN {} ELSE {"E1_Share"}) \cup
+    (IF X_ReTrigger(c, out) THEN {} ELSE {"X_ReTrigger"})
 
 ----------------------------------------------------------------------------
 (* E2.  A "proc record" is what was observed of one keyper processing one block:
@@ -143,7 +164,7 @@ X_AllFlagged(tabs, dec, reg) ==
 (* information: an identity whose key every keyper holds was sent in no list that reached T senders *)
 X_ListsAgree(sent, tabs) ==
     \A x \in G!IdSet : (\E i \in G!Nodes : tabs[i].keys[x] = "good") => \E r \in BigLists(sent) : x \in G!IdsOf(r)
-InfoMonitors == {"X_AllFlagged", "X_ListsAgree", "E2_Known_D6"}
+InfoMonitors == {"X_AllFlagged", "X_ListsAgree", "X_Flagged", "X_ReTrigger", "E2_Known_D6"}
 EndInfo(sent, tabs, dec, reg) ==
     (IF X_AllFlagged(tabs, dec, reg) THEN {} ELSE {"X_AllFlagged"}) \cup
     (IF X_ListsAgree(sent, tabs) THEN {} ELSE {"X_ListsAgree"})
